@@ -30,36 +30,36 @@ import (
 var c14Kinds = []string{"conn-read", "conn-write", "fifo-read", "fifo-write", "file-read", "file-write", "accept", "pkt-read", "pkt-write", "mc-read", "mc-write"}
 
 type c14Env struct {
-	x      *engine.X
-	ioc    *sonic.IO
-	chain  int
-	cycle  []int
-	depth  int
-	maxD   int
-	done   int
-	calls  []int
-	fails  []string
-	tcp    sonic.Conn
-	tcpP   int
-	tcpPos int
-	fr     sonic.File
-	frP    int
-	frPos  int
-	fw     sonic.File
-	fwP    int
-	regR   sonic.File
-	regPos int
-	regW   sonic.File
-	lst    sonic.Listener
-	conns  []int
-	pkt    sonic.PacketConn
-	pktP   int
-	pktPP  int
-	pktSeq int
-	mc     *multicast.UDPPeer
-	mcP    int
-	mcPP   int
-	mcSeq  int
+	x       *engine.X
+	ioc     *sonic.IO
+	chain   int
+	cycle   []int
+	depth   int
+	maxD    int
+	done    int
+	calls   []int
+	fails   []string
+	tcp     sonic.Conn
+	tcpP    int
+	tcpPos  int
+	fr      sonic.File
+	frP     int
+	frPos   int
+	fw      sonic.File
+	fwP     int
+	regR    sonic.File
+	regPos  int
+	regW    sonic.File
+	lst     sonic.Listener
+	conns   []int
+	pkt     sonic.PacketConn
+	pktP    int
+	pktPP   int
+	pktSeq  int
+	mc      *multicast.UDPPeer
+	mcP     int
+	mcPP    int
+	mcSeq   int
 	closers []func()
 }
 
